@@ -48,7 +48,7 @@ func unitC04orch(e common.Env, p *common.Part) {
 	mk("dkg N=3 senders 1,2", []uint16{1, 2, 3}, false, []uint16{1, 2}, []uint8{1}, false, e.Pick(3000, 20000), e.Pick(300, 0))
 	mk("dkg N=3 ids 5,9,12 senders 5,12 round 0", []uint16{5, 9, 12}, false, []uint16{5, 12}, []uint8{0}, false, e.Pick(0, 20000), e.Pick(300, 2000))
 	mk("dkg N=4 sender 1", []uint16{1, 2, 3, 4}, false, []uint16{1}, []uint8{1}, false, e.Pick(1000, 20000), e.Pick(200, 0))
-	mk("dkg N=3 all senders 2 rounds p2p", []uint16{1, 2, 3}, false, []uint16{1, 2, 3}, []uint8{1, 2}, true, 0, e.Pick(400, 6000))
+	mk("dkg N=3 all senders 2 rounds p2p", []uint16{1, 2, 3}, false, []uint16{1, 2, 3}, []uint8{1, 2}, true, 0, e.Pick(400, 60000))
 	mkSilent := func(name string, ids []uint16, sign bool, transmit []uint16, rounds []uint8, p2p bool, limit, samples int) {
 		mk(name, ids, sign, transmit, rounds, p2p, limit, samples)
 		cases[len(cases)-1].cfg.Silent = true
@@ -57,8 +57,8 @@ func unitC04orch(e common.Env, p *common.Part) {
 	mkSilent("silent dkg N=3 all senders", []uint16{1, 2, 3}, false, []uint16{1, 2, 3}, []uint8{1}, false, e.Pick(3000, 20000), e.Pick(300, 2000))
 	mkSilent("silent sign N=3 all senders p2p", []uint16{1, 2, 3}, true, []uint16{1, 2, 3}, []uint8{1}, true, e.Pick(2000, 20000), e.Pick(300, 3000))
 	mkSilent("silent dkg N=4 all senders 2 rounds p2p", []uint16{1, 2, 3, 4}, false, []uint16{1, 2, 3, 4}, []uint8{1, 2}, true, 0, e.Pick(200, 4000))
-	mk("sign N=4 all senders 3 rounds p2p", []uint16{1, 2, 3, 4}, true, []uint16{1, 2, 3, 4}, []uint8{1, 2, 127}, true, 0, e.Pick(200, 4000))
-	mk("dkg N=5 senders 1,3,5 2 rounds p2p", []uint16{1, 2, 3, 4, 5}, false, []uint16{1, 3, 5}, []uint8{1, 2}, true, 0, e.Pick(100, 3000))
+	mk("sign N=4 all senders 3 rounds p2p", []uint16{1, 2, 3, 4}, true, []uint16{1, 2, 3, 4}, []uint8{1, 2, 127}, true, 0, e.Pick(200, 40000))
+	mk("dkg N=5 senders 1,3,5 2 rounds p2p", []uint16{1, 2, 3, 4, 5}, false, []uint16{1, 3, 5}, []uint8{1, 2}, true, 0, e.Pick(100, 30000))
 	for i, oc := range cases {
 		if !e.Mine(i) || p.ViolationCount() >= 3 {
 			continue
@@ -105,9 +105,9 @@ func byzOrchCatalogue(e common.Env) []ocase {
 			Script: backend.Script{Rounds: []uint8{1}, Bcast: true, P2P: false, Transmit: transmitSet(transmit...), Versions: versions}}
 		out = append(out, ocase{cfg, limit, samples})
 	}
-	lim3 := 20000
-	lim4 := e.Pick(1500, 20000)
-	smp := e.Pick(150, 3000)
+	lim3 := e.Pick(20000, 150000)
+	lim4 := e.Pick(1500, 150000)
+	smp := e.Pick(150, 25000)
 	for _, sign := range []bool{false, true} {
 		kind := "dkg"
 		if sign {
